@@ -10,6 +10,8 @@ length bound over an atom pool with lengths {1, 3, 7, W-3, W+2} plus quoted stri
 blanks / parentheses / doubled quotes / the other quote, items with blanks and parentheses; flat
 lists, the `format_line` shape [indent, head, join_items(...), tail] (one level of nesting,
 separable in {T, F}) and the pragma shape.  Ground truth is `sep.join(items)`.
+Item-count bound: quick flat <= 4 / line <= 3 / pragma <= 4 items; thorough adds one item for the
+narrow width W=16 (flat <= 5, line <= 4) and for the pragma shape (<= 5).
 Scaled-down realism (precondition of a world, not an oracle weakening): as on a 132-column line,
 the only atoms that cannot fit on a continuation line of their own are character literals;
 worlds in which an identifier atom plus its separator cannot fit are not built (they are counted).
@@ -18,6 +20,12 @@ Level 2 (end to end): parameterised constructs, parsed with Frontend.FP from one
 line source and printed with `FortranStyle` and `IFSFortranStyle`, swept over *every* value of a
 size parameter n (terms / arguments / entities / literal length / nesting depth ...) and of a pad
 (length of the first identifier, so that every alignment of a break against the width occurs).
+57 construct families (see fam_defs: expressions, calls with positional/keyword arguments,
+declarations with attributes/initialisers/string parameters, derived types, procedure headers, USE
+ONLY/rename lists, ALLOCATE/DEALLOCATE/NULLIFY, ASSOCIATE, IF/ELSE IF conditions, inline IF/WHERE/
+FORALL, WHERE/ELSEWHERE, SELECT CASE lists, WRITE/PRINT/OPEN/FORMAT text statements, DATA, array
+constructors, statement functions, !$acc/!$omp pragmas, trailing and full-line comments, string
+literals of every length 100..140 in four contexts x five contents, nesting depth 0..30/40).
 
 Oracle (both levels), exactly the statement:
  (W) every emitted line is <= width, unless the line's payload (indentation and continuation
@@ -259,8 +267,9 @@ def l1_slices(quick):
     for W in (16, 24):
         atoms = l1_atoms(W)
         for shape, (cont, _, flavour) in l1_shapes(W).items():
-            forms = [('pragma', 4 if quick else 5)] if flavour == 'pragma' else \
-                [('flat', 4 if quick else 5), ('line', 3 if quick else 4)]
+            deep = not quick and W == 16        # thorough: one more item for the narrow width
+            forms = [('pragma', 5 if not quick else 4)] if flavour == 'pragma' else \
+                [('flat', 5 if deep else 4), ('line', 4 if deep else 3)]
             for form, K in forms:
                 for sep in ([' '] if form == 'pragma' else L1_SEPS):
                     if form == 'line' and sep == '':
@@ -381,47 +390,47 @@ def fam_defs(quick):
         return list(range(0, (q if quick else t) + 1))
     litL = list(range(100, 141)) if quick else list(range(96, 146))
     d = {
-        'sum': (R(1, 26, 48), P(3, 11)),
-        'call': (R(1, 26, 48), P(3, 11)),
-        'callkw': (R(1, 10, 12), P(1, 7)),
-        'fncall': (R(1, 20, 40), P(1, 9)),
-        'decl': (R(1, 32, 60), P(3, 11)),
-        'declattr': (R(1, 20, 40), P(1, 9)),
-        'declinit': (R(1, 26, 50), P(1, 9)),
-        'paren': (R(1, 10, 15), P(1, 5)),
-        'ifcond': (R(1, 16, 32), P(1, 7)),
-        'inlineif': (R(1, 16, 32), P(1, 7)),
-        'where': (R(1, 16, 32), P(1, 7)),
-        'useonly': (R(1, 32, 60), P(3, 11)),
-        'alloc': (R(1, 20, 36), P(1, 7)),
-        'assoc': (R(1, 16, 30), P(1, 7)),
-        'dummies': (R(1, 32, 60), P(3, 11)),
-        'selcase': (R(1, 40, 70), P(1, 7)),
-        'write': (R(1, 20, 40), P(1, 7)),
-        'printq': (R(1, 20, 40), P(1, 7)),
-        'pragma_acc': (R(1, 32, 60), P(3, 11)),
-        'pragma_omp': (R(1, 32, 60), P(3, 11)),
-        'data': (R(1, 40, 70), P(1, 3)),
-        'arrayctor': (R(1, 20, 40), P(1, 7)),
-        'strcat': (R(1, 20, 40), P(3, 11)),
-        'comment': (R(90, 140, 150), P(0, 3)),
-        'nest': (R(0, 30, 44), P(0, 3)),
-        'forall': (R(1, 14, 28), P(1, 5)),
-        'elsewhere': (R(1, 14, 28), P(1, 5)),
-        'typedef': (R(1, 24, 40), P(1, 7)),
-        'funchead': (R(1, 24, 48), P(1, 7)),
-        'declstr': (R(1, 20, 32), P(1, 7)),
-        'inlineifcall': (R(1, 20, 32), P(1, 5)),
-        'allocopt': (R(1, 16, 30), P(1, 5)),
-        'userename': (R(1, 16, 30), P(1, 7)),
-        'namedif': (R(1, 12, 24), P(1, 5)),
-        'format': (R(1, 24, 40), P(1, 5)),
-        'openstmt': (R(1, 40, 60), P(1, 3)),
-        'stmtfunc': (R(1, 16, 30), P(1, 5)),
+        'sum': (R(1, 26, 40), P(3, 6)),
+        'call': (R(1, 26, 40), P(3, 6)),
+        'callkw': (R(1, 10, 12), P(1, 3)),
+        'fncall': (R(1, 20, 32), P(1, 3)),
+        'decl': (R(1, 32, 48), P(3, 6)),
+        'declattr': (R(1, 20, 32), P(1, 3)),
+        'declinit': (R(1, 26, 40), P(1, 3)),
+        'paren': (R(1, 10, 13), P(1, 2)),
+        'ifcond': (R(1, 16, 24), P(1, 3)),
+        'inlineif': (R(1, 16, 24), P(1, 3)),
+        'where': (R(1, 16, 24), P(1, 3)),
+        'useonly': (R(1, 32, 48), P(3, 6)),
+        'alloc': (R(1, 20, 30), P(1, 3)),
+        'assoc': (R(1, 16, 24), P(1, 3)),
+        'dummies': (R(1, 32, 48), P(3, 6)),
+        'selcase': (R(1, 40, 60), P(1, 3)),
+        'write': (R(1, 20, 32), P(1, 3)),
+        'printq': (R(1, 20, 32), P(1, 3)),
+        'pragma_acc': (R(1, 32, 48), P(3, 6)),
+        'pragma_omp': (R(1, 32, 48), P(3, 6)),
+        'data': (R(1, 40, 60), P(1, 2)),
+        'arrayctor': (R(1, 20, 32), P(1, 3)),
+        'strcat': (R(1, 20, 32), P(3, 6)),
+        'comment': (R(90, 140, 150), P(0, 1)),
+        'nest': (R(0, 30, 40), P(0, 1)),
+        'forall': (R(1, 14, 22), P(1, 3)),
+        'elsewhere': (R(1, 14, 22), P(1, 3)),
+        'typedef': (R(1, 24, 36), P(1, 3)),
+        'funchead': (R(1, 24, 40), P(1, 3)),
+        'declstr': (R(1, 20, 30), P(1, 3)),
+        'inlineifcall': (R(1, 20, 30), P(1, 3)),
+        'allocopt': (R(1, 16, 26), P(1, 3)),
+        'userename': (R(1, 16, 26), P(1, 3)),
+        'namedif': (R(1, 12, 20), P(1, 3)),
+        'format': (R(1, 24, 36), P(1, 3)),
+        'openstmt': (R(1, 40, 60), P(1, 2)),
+        'stmtfunc': (R(1, 16, 26), P(1, 3)),
     }
     for ctx in ('assign', 'concat', 'callarg', 'print'):
         for var in LITBODY:
-            d[f'lit_{ctx}_{var}'] = (litL, P(0, 3))
+            d[f'lit_{ctx}_{var}'] = (litL, P(0, 1))
     return d
 
 
@@ -890,7 +899,7 @@ CHUNK = {'paren': 3, 'nest': 4, 'sum': 6, 'ifcond': 6, 'where': 6, 'inlineif': 6
 def l2_items(quick, seed, scratch):
     items = []
     for fam, (ns, pads) in fam_defs(quick).items():
-        ch = CHUNK.get(fam, 12)
+        ch = CHUNK.get(fam, 12) * (1 if quick else 2)
         for pad in pads:
             for k in range(0, len(ns), ch):
                 items.append((fam, pad, ns[k:k + ch], seed, not quick, scratch))
@@ -960,7 +969,8 @@ def run(ctx):
              'several lines); all generated worlds/cases are pairwise distinct by construction',
         level1=dict(worlds=n1, wrapped=w1, violating=len(viol1), skipped_worlds_precondition=skipped, wall_s=round(t1, 1),
                     widths=[16, 24], shapes=sorted(l1_shapes(16)), separators=L1_SEPS,
-                    max_items=dict(flat=4 if ctx.quick else 5, line=3 if ctx.quick else 4, pragma=4 if ctx.quick else 5),
+                    max_items=dict(flat='4' if ctx.quick else '5 for W=16, 4 for W=24',
+                                   line='3' if ctx.quick else '4 for W=16, 3 for W=24', pragma=4 if ctx.quick else 5),
                     atoms=l1_atoms(16)),
         level2=dict(cases=n2, wrapped=w2, violating=len(viol2), batches=len(items),
                     cases_with_exempt_overlong_line=sum(r['overlong_cases'] for r in r2),
